@@ -234,8 +234,6 @@ Proof.
   rewrite A, B, A', B', H. repeat split.
 Qed.
 
-Definition total_gap (qs : list request) : Z :=
-  fold_right (fun q a => Z.max 0 (q_gap q) + a) 0 qs.
 
 (* two instances in lock-step: a run over qs1 ++ qs2 is the run over qs1 followed by the
    run over qs2 on what is left of the stream *)
